@@ -1316,3 +1316,9 @@ VP("C18-R2C-mut-include-result-dropped", "C18", "refactored include processing d
    "                tree = include_field.include(self, format_factory(), filename, tree)", "                include_field.include(self, format_factory(), filename, tree)")
 VP("C18-R2C-mut-merge-in-place", "C18", "refactored merge writes into the base tree", "C18-R2C", INC,
    "        merged = dict(base)", "        merged = base")
+VP("C20-R2C-mut-virtual-in-ctor", "C20", "flag-based partition: virtual fields become constructor parameters", "C20-R2C", STUBS,
+   "        if persistent:\n            attrs[key] = arg_annotation", "        attrs[key] = arg_annotation")
+VP("C20-R2C-mut-virtual-not-annotated", "C20", "flag-based partition: virtual fields lose their attribute annotation", "C20-R2C", STUBS,
+   "        properties[key] = arg_annotation\n        if persistent:", "        if persistent:\n            properties[key] = arg_annotation\n        if persistent:")
+VP("C20-R2C-mut-methods-as-attrs", "C20", "flag-based partition: instance methods fall through to the attribute tables", "C20-R2C", STUBS,
+   "            methods[key] = field\n            continue", "            methods[key] = field")
